@@ -146,6 +146,10 @@ func main() {
 	case "big":
 		symOff = 50
 		genLarge(w, *tier)
+	case "sqlite":
+		symOff = 50
+		sqliteMode = true
+		genSqlite(w, *tier)
 	case "tidb":
 		symOff = 50
 		tidbMode = true
@@ -612,6 +616,13 @@ func runCase(w *out.W, id string, sc *scenario, tags ...string) {
 	if tidbMode { // stage "tidb": the planner mysql.Open installs for a TiDB server, alone
 		eps = []entry{{"tidb", func() runRes { return runPlanner(sc, tidbPlan, "int") }}}
 	}
+	if sqliteMode { // stage "sqlite": sqlite.DefaultPlan, judged with SQLite's semantics
+		eps = []entry{{"sqlite", func() runRes {
+			r, off := runSqlite(sc)
+			sqliteFKOff = off
+			return r
+		}}}
+	}
 	for _, ep := range eps {
 		if (objMode || hasObj || sc.hasTypes()) && ep.name == "mysql" {
 			continue // the MySQL planner has no object (enum type) changes
@@ -630,6 +641,21 @@ func runCase(w *out.W, id string, sc *scenario, tags ...string) {
 			if want := sc.preLine(); strings.Join(r.top, ",") != want {
 				w.Violation(id, "schema-change-not-once", fmt.Sprintf("%s: the executed plan has the schema-level statements [%s], the change list has [%s]; case: %s", ep.name, strings.Join(r.top, ","), want, line))
 			}
+		} else if sqliteMode {
+			// the statements follow the change list for every length: exact order
+			fk := "on"
+			if sqliteFKOff {
+				fk = "off"
+				nontrivial = true
+			}
+			w.Count("fk:" + fk)
+			if hyp {
+				w.Count("hyp:WF+consistent")
+				w.Count("exact:sqlite-predicted-" + verdict) // C04_sqlite_safe predicts ok
+			} else {
+				w.Count("hyp:not-WF-or-inconsistent")
+			}
+			obs = append(obs, fmt.Sprintf("%s out=%s fk=%s replay=%s", ep.name, showOut(r.outp), fk, verdict))
 		} else if objMode {
 			// type part of the catalogue (judgeTypes, written independently of the Coq treplay): a type exists when
 			// it is used, is created once, is dropped only when unused
